@@ -34,6 +34,11 @@ type World struct {
 	specUsed   map[string]bool
 	typeIDs    map[string]int
 	writesMemo map[string]map[string]bool
+	readsMemo  map[string]map[string]bool
+	readsBusy  map[string]bool
+	pureDecls  map[string]string
+	pureOrder  []string
+	initReach  map[string]map[*ssa.Function]bool
 	writesBusy map[string]bool
 	funcIDs    map[string]int
 	specText   string // cached SMT text of spec definitions
@@ -78,7 +83,7 @@ func isPathChar(c byte) bool {
 func LoadWorld(repo, verif string) (*World, error) {
 	w := &World{repo: repo, verif: verif, typePkgs: map[string]*types.Package{}, ssaPkgs: map[string]*ssa.Package{},
 		lits: NewLits(), heapSorts: map[string]string{}, fnByKey: map[string]*ssa.Function{}, specUsed: map[string]bool{},
-		typeIDs: map[string]int{}, writesMemo: map[string]map[string]bool{}, writesBusy: map[string]bool{}, funcIDs: map[string]int{}}
+		typeIDs: map[string]int{}, writesMemo: map[string]map[string]bool{}, readsMemo: map[string]map[string]bool{}, readsBusy: map[string]bool{}, writesBusy: map[string]bool{}, funcIDs: map[string]int{}}
 	w.regHeap(keyBuilder, arrSort(SStr))
 	w.regHeap(keyBitSet, arrSort(arrSort(SBool)))
 	w.regHeap("$cost", SInt)
